@@ -119,10 +119,15 @@ func parsedTypeByKind(v any) core.ParsedType {
 	case reflect.Func:
 		return core.ParsedTypeFunction
 	case reflect.Pointer, reflect.Interface:
-		if IsNil(v) {
+		end, cyclic := DerefChain(v)
+		if cyclic {
+			// A self-referential pointer chain never reaches a value.
+			return core.ParsedTypeUnknown
+		}
+		if end == nil {
 			return core.ParsedTypeNil
 		}
-		return ParsedType(reflect.ValueOf(v).Elem().Interface())
+		return ParsedType(end)
 	default:
 		return core.ParsedTypeUnknown
 	}
